@@ -503,3 +503,44 @@ pub fn gcd_ext_in_place(
     };
     (1, locate_top_word_plus_one(lhs), sign)
 }
+
+/// Entry points of the word-level Lehmer kernels for external verification harnesses.
+/// Compiled only with `--cfg dashu_verif`; nothing here changes the behaviour of the library.
+#[cfg(dashu_verif)]
+pub(crate) mod verif {
+    use super::*;
+    use crate::primitive::double_word;
+
+    pub fn guess(xbar: Word, ybar: Word) -> (Word, Word, Word, Word) {
+        lehmer_guess(xbar, ybar)
+    }
+
+    pub fn guess_dword(xbar: (Word, Word), ybar: (Word, Word)) -> (Word, Word, Word, Word) {
+        lehmer_guess_dword(double_word(xbar.0, xbar.1), double_word(ybar.0, ybar.1))
+    }
+
+    pub fn top_word(x: &[Word], y: &[Word]) -> (Word, Word) {
+        highest_word_normalized(x, y)
+    }
+
+    pub fn top_dword(x: &[Word], y: &[Word]) -> ((Word, Word), (Word, Word)) {
+        let (x_hi, y_hi) = highest_dword_normalized(x, y);
+        (split_dword(x_hi), split_dword(y_hi))
+    }
+
+    pub fn step(x: &mut [Word], y: &mut [Word], a: Word, b: Word, c: Word, d: Word) {
+        lehmer_step(x, y, a, b, c, d)
+    }
+
+    pub fn ext_step(
+        x: &mut [Word],
+        y: &mut [Word],
+        len: usize,
+        a: Word,
+        b: Word,
+        c: Word,
+        d: Word,
+    ) -> (Word, Word) {
+        lehmer_ext_step(x, y, len, a, b, c, d)
+    }
+}
